@@ -13,6 +13,12 @@ garbage B, positions permuted consistently, query explicitly expanded.  All four
 spec value of every output cell, which decides convexity (the spec value is convex), mask blindness,
 permutation invariance and broadcast = expand without ever comparing the implementation with itself.
 MultiHeadedAttention gets integer projection matrices and every subset of the four biases.
+LONG sequences: TLC also checks EmbedInvariant (a case over T positions equals the case over n > T positions whose extra
+positions are masked and hold anything, wherever the T positions sit) and ReplicaInvariant (repeating every position the
+same number of times changes nothing).  Every case is therefore run once more as a sequence of 1024..3000 positions
+with the SAME spec value: embedded (at the end, at the start, across 1024 / 2048, behind the last multiple of 1024, at
+random places; everything else masked garbage) or replicated (tiled or shuffled copies; without a mask when the case
+keeps every position).
 
 NOT decided: the tanh score of ConcatSoftAttention for non-degenerate parameters (only the zero
 weight matrix -> uniform weights is in the universe); non-integer projection parameters."""
@@ -21,6 +27,7 @@ import json
 import math
 import os
 import sys
+import time
 
 import torch
 
@@ -124,8 +131,93 @@ def expected(oracle, pid, layout, contents):
     return exp
 
 
-def build_tensors(layout, contents, gseed, perm_seed=None, expand_query=False, extreme=False, offset=0.0):
+LONG_L = (1500, 2548, 1024, 2048, 1500, 2548, 1025, 3000)
+EMBED_MODES = ("end", "random", "straddle", "tail", "start", "random")
+REPLICA_MODES = ("shuffled", "tiled", "shuffled_some")
+
+
+def long_source(T, L, mode, g):
+    """Attention!EmbedInvariant / ReplicaInvariant: -> src, a LongTensor of length L; src[x] = t (0-based position of the case
+    that position x of the long sequence repeats: key, value and mask bit) or -1 (an extra position: masked, holding
+    garbage).  Every position of the case occurs the same number of times."""
+    src = torch.full((L,), -1, dtype=torch.long)
+
+    def rand(n):
+        return int(torch.randint(n, (1,), generator=g))
+
+    if mode in ("end", "start", "straddle"):
+        if mode == "end":
+            start = L - T
+        elif mode == "start":
+            start = 0
+        else:
+            # across a multiple of 1024 (where an implementation that works in blocks would cut), or the middle
+            bounds = [b for b in (1024, 2048) if b < L] or [L // 2]
+            start = bounds[rand(len(bounds))] - rand(T + 1)
+        start = max(0, min(start, L - T))
+        src[start:start + T] = torch.randperm(T, generator=g)
+    elif mode in ("random", "tail"):
+        lo = 0
+        if mode == "tail":
+            lo = min((L - 1) // 1024 * 1024, L - T)  # behind the last multiple of 1024
+        where = torch.randperm(L - lo, generator=g)[:T] + lo
+        src[where] = torch.arange(T)
+    elif mode == "tiled":
+        n = (L // T) * T
+        src[:n] = torch.arange(n) % T
+    elif mode in ("shuffled", "shuffled_some"):
+        c = L // T if mode == "shuffled" else 2 + rand(max(1, L // T - 1))
+        where = torch.randperm(L, generator=g)[:c * T]
+        src[where] = torch.arange(c * T) % T
+    else:
+        raise MachineryError("unknown long mode %r" % mode)
+    counts = torch.bincount(src[src >= 0], minlength=T)
+    if int(counts.min()) < 1 or int(counts.min()) != int(counts.max()):
+        raise MachineryError("long_source: counts %r" % counts.tolist())
+    return src
+
+
+def build_long_tensors(layout, contents, gseed, long, extreme=False):
+    """the case of `contents` (T positions) as a sequence of long['L'] positions: -> query, key, value, mask"""
+    ks, qs, T, d = layout["ks"], layout["qs"], layout["T"], layout["d"]
+    L = long["L"]
+    g = torch.Generator().manual_seed(gseed)
+    kshape = list(ks[:d]) + [L] + list(ks[d:])
+    fk, fv, fq = layout["kshape"][-1], layout["vshape"][-1], layout["qshape"][-1]
+    key = torch.randn(kshape + [fk], generator=g, dtype=DT) * 7 + 3
+    value = torch.randn(kshape + [fv], generator=g, dtype=DT) * 50 - 20
+    if extreme:
+        sign = torch.where(torch.rand(kshape + [fk], generator=g) < 0.7, 1.0, -1.0).to(DT)
+        key = sign * (2000.0 + 500.0 * torch.rand(kshape + [fk], generator=g, dtype=DT))
+        value = value * 200.0
+    # one source map per key row (rows in the row-major order of their index over ks), then gather
+    rows = sorted(contents["kcs"], key=lambda x: list(x[0]))
+    if [list(i) for i, _ in rows] != [list(i) for i in indices(ks)]:
+        raise MachineryError("key contents do not cover the key's leading shape")
+    srcs = torch.stack([long_source(T, L, long["mode"], g) for _ in rows])  # (rows, L)
+    srcc = srcs.clamp_min(0)
+    keep = torch.tensor([[(t + 1) in kc["keep"] for t in range(T)] for _, kc in rows])
+    ksmall = torch.tensor([[[math.log(b) for b in kc["kb"][t]] for t in range(T)] for _, kc in rows], dtype=DT)
+    vsmall = torch.tensor([[[float(v) for v in kc["val"][t]] for t in range(T)] for _, kc in rows], dtype=DT)
+    kept = (srcs >= 0) & keep.gather(1, srcc)  # masked positions of the case keep their garbage, like the extra positions
+    nl = len(ks)
+
+    def place(x):  # (rows, L, ...) -> T at position d of the key's leading dims
+        return x.view(*(list(ks) + list(x.shape[1:]))).movedim(nl, d)
+
+    mask = place(kept).contiguous()
+    key = torch.where(mask.unsqueeze(-1), place(ksmall.gather(1, srcc.unsqueeze(-1).expand(-1, -1, fk))), key)
+    value = torch.where(mask.unsqueeze(-1), place(vsmall.gather(1, srcc.unsqueeze(-1).expand(-1, -1, fv))), value)
+    query = torch.zeros(list(qs) + [fq], dtype=DT)
+    for i, q in contents["qcs"]:
+        query[tuple(i)] = torch.tensor([float(x) for x in q], dtype=DT)
+    return query, key, value, mask
+
+
+def build_tensors(layout, contents, gseed, perm_seed=None, expand_query=False, extreme=False, offset=0.0, long=None):
     """-> query, key, value, mask (mask True = keep); T at position d of key/value/mask"""
+    if long is not None:
+        return build_long_tensors(layout, contents, gseed, long, extreme=extreme)
     ks, qs, T, d = layout["ks"], layout["qs"], layout["T"], layout["d"]
     g = torch.Generator().manual_seed(gseed)
     kshape = list(ks[:d]) + [T] + list(ks[d:])
@@ -275,12 +367,29 @@ def run_case(ctx, oracle, layout, pid, contents, seed, use_mask=True, replaying=
         # kept scores far below / above anything a finite stand-in for "minus infinity" could be
         variants.append(("offset-", dict(gseed=seed + 13, offset=-1.0e5)))
         variants.append(("offset+", dict(gseed=seed + 17, offset=1.0e5)))
+    # long sequences (EmbedInvariant / ReplicaInvariant): the same case, the same spec value; one of the two per case
+    T = layout["T"]
+    if not use_mask:
+        # no mask at all: every position is a replica (the long length is rounded down to a multiple of T)
+        L = (LONG_L[seed % len(LONG_L)] // T) * T
+        variants.append(("replicated_long", dict(gseed=seed + 23, long=dict(L=L, mode=("shuffled", "tiled")[(seed // 3) % 2]))))
+    elif seed % 2:
+        L = LONG_L[(seed // 2) % len(LONG_L)]
+        variants.append(("embedded_long", dict(gseed=seed + 19, long=dict(L=L, mode=EMBED_MODES[(seed // 16) % len(EMBED_MODES)]),
+                                               extreme=bool((seed // 4) % 2))))
+    else:
+        L = LONG_L[(seed // 2) % len(LONG_L)]
+        variants.append(("replicated_long", dict(gseed=seed + 23, long=dict(L=L, mode=REPLICA_MODES[(seed // 16) % len(REPLICA_MODES)]))))
     first_bad = None
     for name, kw in variants:
+        t0 = time.time()
         q, k, v, m = build_tensors(layout, contents, **kw)
         try:
             with torch.no_grad():
                 out = module(q, k, v, m if use_mask else None)
+            if "long" in kw:
+                ctx.extra["long_variant_s"] = round(ctx.extra.get("long_variant_s", 0.0) + time.time() - t0, 4)
+                ctx.extra["long_variants"] = ctx.extra.get("long_variants", 0) + 1
         except Exception as ex:
             ok = False
             _viol(ctx, dict(sigbase, kind="exception", exc=type(ex).__name__), "%s: raised %r" % (name, ex),
@@ -296,12 +405,14 @@ def run_case(ctx, oracle, layout, pid, contents, seed, use_mask=True, replaying=
                 # the first run matched the spec: the failure is a dependence on what varied
                 kind = {"garbageB": "masked_content_dependence", "garbageX": "masked_content_dependence",
                         "offset-": "score_offset_dependence", "offset+": "score_offset_dependence", "permuted": "permutation_dependence",
-                        "expanded": "broadcast_differs_from_expand"}[name]
+                        "expanded": "broadcast_differs_from_expand", "embedded_long": "long_sequence_embedding",
+                        "replicated_long": "long_sequence_replication"}[name]
             elif dim < 0:
                 kind = "value_negative_dim"
             elif p["fl"] == "mha" and set(bias_mismatch) & set("QVC"):
                 kind = "value_bias"
-        _viol(ctx, dict(sigbase, kind=kind), "%s (dim=%d, %s): %s" % (pid, dim, name, detail), dict(case, variant=name))
+        where = name if "long" not in kw else "%s: %d positions, %s" % (name, kw["long"]["L"], kw["long"]["mode"])
+        _viol(ctx, dict(sigbase, kind=kind), "%s (dim=%d, %s): %s" % (pid, dim, where, detail), dict(case, variant=name))
         first_bad = first_bad or name
         if name == "garbageA":
             break  # the remaining runs would only repeat the same mismatch
@@ -318,7 +429,9 @@ def run(ctx):
                 "(dot-product scale 1 and 2, generalised with integer matrices +- bias, concat with zero matrix, "
                 "multi-headed with integer projections and each of the 16 bias subsets) x seeded choice of query/key "
                 "contents from the spec's table; each case run as garbage A / garbage B / permuted / expanded-query and "
-                "compared cell by cell with the spec's exact rational value; non-trivial = some key row keeps >= 2 "
+                "compared cell by cell with the spec's exact rational value, plus one long-sequence run (1024..3000 positions: the "
+                "case embedded among masked garbage positions, or every position replicated equally often; "
+                "Attention!EmbedInvariant / ReplicaInvariant) against the same value; non-trivial = some key row keeps >= 2 "
                 "positions; distinct by (layout, flavour, contents)")
     ctx.assumptions += [
         "NOT DECIDED: ConcatSoftAttention's tanh score for non-degenerate parameters (only the zero weight matrix, "
@@ -326,6 +439,9 @@ def run(ctx):
         "NOT DECIDED: non-integer projection / score parameters (attention weights would not be rational)",
         "keys are logarithms of integers 1..3, queries and matrices small integers, values small integers; modules "
         "run in float64, comparison tolerance 1e-9",
+        "long sequences are built from the small cases only (EmbedInvariant / ReplicaInvariant, TLC-checked for up to 4 "
+        "positions): at most 3 distinct kept (key, value) contents per row, repeated / surrounded by masked positions; "
+        "lengths 1024, 1025, 1500, 2048, 2548, 3000",
         "key, value and mask share their leading dimensions as documented ((B*, T, C*)); broadcasting is between the "
         "query and that common shape; dimension sizes 1..2, at most 2 (quick) / 3 (thorough) leading dimensions",
         "a bias on the key projection of multi-headed attention shifts all scores of a head equally and is therefore "
